@@ -57,6 +57,28 @@ Section Flow.
     - destruct (Nat.eqb n (fk f)); intro H; inversion H; reflexivity.
   Qed.
 
+  Lemma read_faulted_fired f s e off n : fired (snd (read_faulted file f s e off n)) = true.
+  Proof.
+    unfold read_faulted. destruct f as [ft|]; [|reflexivity].
+    destruct (fkd ft); try reflexivity; destruct (buffered_ctx s); try reflexivity; destruct (forc ft n); reflexivity.
+  Qed.
+
+  Lemma read_faulted_swallowed f s e off n : swallowed (snd (read_faulted file f s e off n)) = swallowed s.
+  Proof.
+    unfold read_faulted. destruct f as [ft|]; [|reflexivity].
+    destruct (fkd ft); try reflexivity; destruct (buffered_ctx s); try reflexivity; destruct (forc ft n); reflexivity.
+  Qed.
+
+  Lemma read_faulted_reads f s e off n : reads (snd (read_faulted file f s e off n)) = S (reads s).
+  Proof.
+    unfold read_faulted. destruct f as [ft|]; [|reflexivity].
+    destruct (fkd ft); try reflexivity; destruct (buffered_ctx s); try reflexivity; destruct (forc ft n); reflexivity.
+  Qed.
+
+  Lemma read_faulted_err ft s e off n :
+    fkd ft = FKErr -> read_faulted file (Some ft) s e off n = (Err (IO e), read_fail s e).
+  Proof. intro H. unfold read_faulted. rewrite H. reflexivity. Qed.
+
   (* fired and swallowed only ever go from false to true *)
   Lemma mono f p : forall s,
       (fired s = true -> fired (snd (eval file f p s)) = true) /\
@@ -66,7 +88,7 @@ Section Flow.
       intros s; cbn [eval].
     - cbn; tauto.
     - cbn; tauto.
-    - destruct (lat s); try (destruct (fires f (S (reads s))); cbn; tauto); cbn; tauto.
+    - destruct (lat s); try (destruct (fires f (S (reads s))); [rewrite read_faulted_fired, read_faulted_swallowed|cbn]; tauto); cbn; tauto.
     - specialize (IHp s). destruct (eval file f p s) as [[v|c] s']; cbn [snd] in *.
       + specialize (IHk v s'). tauto.
       + tauto.
@@ -78,7 +100,7 @@ Section Flow.
     - cbn; tauto.
     - specialize (IHp (set_lat s Armed)). destruct (eval file f p (set_lat s Armed)) as [r s'].
       cbn in *. tauto.
-    - specialize (IHp (set_chk s (Some None))). destruct (eval file f p (set_chk s (Some None))) as [r s'].
+    - specialize (IHp (set_lat (set_chk s (Some None)) NoLatch)). destruct (eval file f p (set_lat (set_chk s (Some None)) NoLatch)) as [r s'].
       cbn [snd] in IHp.
       destruct r as [v|c]; [cbn in *; tauto|].
       destruct (chk s') as [[e|]|]; cbn in *; tauto.
@@ -111,7 +133,7 @@ Section Flow.
     induction p as [v|c|off|p IHp k IHk|l p IHp|p IHp d|m ph p IHp d|v|p IHp|p IHp|p IHp|p IHp h IHh|p IHp h IHh];
       intros s; cbn [eval]; try reflexivity.
     - destruct (lat s); try reflexivity;
-        (destruct (fires (Some f) (S (reads s))) eqn:E; [cbn; discriminate| reflexivity]).
+        (destruct (fires (Some f) (S (reads s))) eqn:E; [rewrite read_faulted_fired; discriminate| reflexivity]).
     - intro H.
       assert (H1 : fired (snd (eval file (Some f) p s)) = false).
       { destruct (eval file (Some f) p s) as [[v|c] s'] eqn:E; cbn [snd] in *.
@@ -136,8 +158,8 @@ Section Flow.
       { destruct (eval file (Some f) p (set_lat s Armed)) as [r s']; exact H. }
       rewrite <- (IHp _ H1). reflexivity.
     - intro H.
-      assert (H1 : fired (snd (eval file (Some f) p (set_chk s (Some None)))) = false).
-      { destruct (eval file (Some f) p (set_chk s (Some None))) as [r s']; cbn [snd] in *.
+      assert (H1 : fired (snd (eval file (Some f) p (set_lat (set_chk s (Some None)) NoLatch))) = false).
+      { destruct (eval file (Some f) p (set_lat (set_chk s (Some None)) NoLatch)) as [r s']; cbn [snd] in *.
         destruct r as [v|c]; [exact H|]. destruct (chk s') as [[e|]|]; exact H. }
       rewrite <- (IHp _ H1). reflexivity.
     - intro H.
@@ -175,7 +197,7 @@ Section Flow.
 
   (* inside a DecodeStream chain: once the fault has fired, the chain reports an
      error and the checker holds the injected error *)
-  Lemma weak_surfacing f p : wsafe p -> forall s,
+  Lemma weak_surfacing f p (Hkd : fkd f = FKErr) : wsafe p -> forall s,
       fired s = false -> chk s = Some None ->
       fired (snd (eval file (Some f) p s)) = true ->
       (exists c, fst (eval file (Some f) p s) = Err c) /\
@@ -186,9 +208,9 @@ Section Flow.
     - cbn. congruence.
     - cbn. congruence.
     - destruct (lat s) eqn:El.
-      + destruct (fires (Some f) (S (reads s))) eqn:E; cbn; [|congruence].
+      + destruct (fires (Some f) (S (reads s))) eqn:E; [rewrite read_faulted_err by exact Hkd|]; cbn; [|congruence].
         intros _. apply fires_id in E. subst n. rewrite Hc0. split; eauto.
-      + destruct (fires (Some f) (S (reads s))) eqn:E; cbn; [|congruence].
+      + destruct (fires (Some f) (S (reads s))) eqn:E; [rewrite read_faulted_err by exact Hkd|]; cbn; [|congruence].
         intros _. apply fires_id in E. subst n. rewrite Hc0. split; eauto.
       + cbn. congruence.
     - specialize (IHp s Hf Hc0).
@@ -210,7 +232,7 @@ Section Flow.
 
   (* the general statement: once the fault has fired, the call returns the
      injected error - unless a catch-all construct swallowed an error *)
-  Lemma strong_surfacing f c p : safe c p -> forall s,
+  Lemma strong_surfacing f c p (Hkd : fkd f = FKErr) : safe c p -> forall s,
       fired s = false ->
       fired (snd (eval file (Some f) p s)) = true ->
       fst (eval file (Some f) p s) = Err (IO (fid f)) \/
@@ -221,9 +243,9 @@ Section Flow.
     - cbn. congruence.
     - cbn. congruence.
     - destruct (lat s) eqn:El.
-      + destruct (fires (Some f) (S (reads s))) eqn:E; cbn; [|congruence].
+      + destruct (fires (Some f) (S (reads s))) eqn:E; [rewrite read_faulted_err by exact Hkd|]; cbn; [|congruence].
         intros _. apply fires_id in E. subst n. left; reflexivity.
-      + destruct (fires (Some f) (S (reads s))) eqn:E; cbn; [|congruence].
+      + destruct (fires (Some f) (S (reads s))) eqn:E; [rewrite read_faulted_err by exact Hkd|]; cbn; [|congruence].
         intros _. apply fires_id in E. subst n. left; reflexivity.
       + cbn. congruence.
     - specialize (IHp s Hf).
@@ -248,8 +270,8 @@ Section Flow.
     - cbn. congruence.
     - specialize (IHp (set_lat s Armed) Hf).
       destruct (eval file (Some f) p (set_lat s Armed)) as [r s']. cbn in *. exact IHp.
-    - pose proof (weak_surfacing f p Hp (set_chk s (Some None)) Hf eq_refl) as W.
-      destruct (eval file (Some f) p (set_chk s (Some None))) as [r s']. cbn [fst snd] in W.
+    - pose proof (weak_surfacing f p Hkd Hp (set_lat (set_chk s (Some None)) NoLatch) Hf eq_refl) as W.
+      destruct (eval file (Some f) p (set_lat (set_chk s (Some None)) NoLatch)) as [r s']. cbn [fst snd] in W.
       intro H.
       assert (Hs' : fired s' = true).
       { destruct r as [v|e]; [exact H|]. destruct (chk s') as [[x|]|]; exact H. }
@@ -272,7 +294,7 @@ Section Flow.
   Lemma wsafe_swallowed f p : wsafe p -> forall s, swallowed (snd (eval file f p s)) = swallowed s.
   Proof.
     induction 1 as [v|c Hc|off|p k Hp IHp Hk IHk|l p Hp IHp|p Hp IHp|p Hp IHp]; intros s; cbn [eval]; try reflexivity.
-    - destruct (lat s); try reflexivity; destruct (fires f (S (reads s))); reflexivity.
+    - destruct (lat s); try reflexivity; destruct (fires f (S (reads s))); try reflexivity; apply read_faulted_swallowed.
     - specialize (IHp s). destruct (eval file f p s) as [[v|c] s']; cbn [snd] in *; [|exact IHp].
       rewrite IHk. exact IHp.
     - apply IHp.
@@ -284,7 +306,7 @@ Section Flow.
   Proof.
     induction 1 as [v|e He|off|p k Hp IHp Hk IHk|l p Hp IHp|p d Hp IHp|m ph p d Hp IHp|v|p Hp IHp|p Hp|p h Hp IHp Hh IHh|p h Hc Hp IHp Hh IHh];
       intros s; cbn [eval]; try reflexivity.
-    - destruct (lat s); try reflexivity; destruct (fires f (S (reads s))); reflexivity.
+    - destruct (lat s); try reflexivity; destruct (fires f (S (reads s))); try reflexivity; apply read_faulted_swallowed.
     - specialize (IHp s). destruct (eval file f p s) as [[v|e] s']; cbn [snd] in *; [|exact IHp].
       rewrite IHk. exact IHp.
     - apply IHp.
@@ -293,8 +315,8 @@ Section Flow.
     - specialize (IHp s). destruct (eval file f p s) as [[v|e] s']; cbn [snd] in *; [exact IHp|].
       destruct (policy m ph e); exact IHp.
     - specialize (IHp (set_lat s Armed)). destruct (eval file f p (set_lat s Armed)) as [r s']. cbn in *. exact IHp.
-    - pose proof (wsafe_swallowed f p Hp (set_chk s (Some None))) as W.
-      destruct (eval file f p (set_chk s (Some None))) as [r s']. cbn [snd] in *.
+    - pose proof (wsafe_swallowed f p Hp (set_lat (set_chk s (Some None)) NoLatch)) as W.
+      destruct (eval file f p (set_lat (set_chk s (Some None)) NoLatch)) as [r s']. cbn [snd] in *.
       destruct r as [v|e]; [exact W|]. destruct (chk s') as [[x|]|]; exact W.
     - specialize (IHp s). destruct (eval file f p s) as [[v|e] s']; cbn [snd] in *; [exact IHp|].
       destruct e; try exact IHp; rewrite IHh; exact IHp.
@@ -311,14 +333,14 @@ Section Flow.
       intros s Hr; cbn [eval]; try (cbn; intros; assumption).
     - destruct (lat s); try (cbn; intros; assumption).
       + unfold fires. destruct (fm f).
-        * destruct (Nat.leb (fk f) (S (reads s))) eqn:E; cbn; [discriminate|].
+        * destruct (Nat.leb (fk f) (S (reads s))) eqn:E; [rewrite read_faulted_fired; discriminate|cbn].
           intros _. apply Nat.leb_gt in E. exact E.
-        * destruct (Nat.eqb (S (reads s)) (fk f)) eqn:E; cbn; [discriminate|].
+        * destruct (Nat.eqb (S (reads s)) (fk f)) eqn:E; [rewrite read_faulted_fired; discriminate|cbn].
           intros _. apply Nat.eqb_neq in E. lia.
       + unfold fires. destruct (fm f).
-        * destruct (Nat.leb (fk f) (S (reads s))) eqn:E; cbn; [discriminate|].
+        * destruct (Nat.leb (fk f) (S (reads s))) eqn:E; [rewrite read_faulted_fired; discriminate|cbn].
           intros _. apply Nat.leb_gt in E. exact E.
-        * destruct (Nat.eqb (S (reads s)) (fk f)) eqn:E; cbn; [discriminate|].
+        * destruct (Nat.eqb (S (reads s)) (fk f)) eqn:E; [rewrite read_faulted_fired; discriminate|cbn].
           intros _. apply Nat.eqb_neq in E. lia.
     - specialize (IHp s Hr). pose proof (fired_back (Some f)) as FB.
       destruct (eval file (Some f) p s) as [[v|c] s'] eqn:E; cbn [snd] in *.
@@ -333,8 +355,8 @@ Section Flow.
       destruct (policy m ph c); exact IHp.
     - specialize (IHp (set_lat s Armed) Hr).
       destruct (eval file (Some f) p (set_lat s Armed)) as [r s']. cbn in *. exact IHp.
-    - specialize (IHp (set_chk s (Some None)) Hr).
-      destruct (eval file (Some f) p (set_chk s (Some None))) as [r s']. cbn [snd] in *.
+    - specialize (IHp (set_lat (set_chk s (Some None)) NoLatch) Hr).
+      destruct (eval file (Some f) p (set_lat (set_chk s (Some None)) NoLatch)) as [r s']. cbn [snd] in *.
       destruct r as [v|c]; [exact IHp|]. destruct (chk s') as [[x|]|]; exact IHp.
     - specialize (IHp s Hr).
       destruct (eval file (Some f) p s) as [[v|c] s']; exact IHp.
@@ -350,36 +372,333 @@ Section Flow.
   (* ---- the theorems ---------------------------------------------------- *)
 
   Lemma fault_surfaces_unless_swallowed_lemma : forall c p f s,
-      safe c p -> fired s = false ->
+      fkd f = FKErr -> safe c p -> fired s = false ->
       eval file (Some f) p s = eval file None p s \/
       fst (eval file (Some f) p s) = Err (IO (fid f)) \/
       swallowed (snd (eval file (Some f) p s)) = true.
   Proof.
-    intros c p f s Hs Hf.
+    intros c p f s Hkd Hs Hf.
     destruct (fired (snd (eval file (Some f) p s))) eqn:E.
     - right. eapply strong_surfacing; eassumption.
     - left. apply no_fire_same. exact E.
   Qed.
 
+  (* ---- data together with the error: simulation of the fault-free run ---- *)
+
+  Definition lat_rel (e : N) (l1 l0 : latch) : Prop := l1 = l0 \/ (l1 = Tripped e /\ l0 = Armed).
+  Definition chk_rel (e : N) (c1 c0 : option (option N)) : Prop :=
+    c1 = c0 \/ (c1 = Some (Some e) /\ c0 = Some None).
+  Definition sim (e : N) (s1 s0 : st) : Prop :=
+    recorded s1 = recorded s0 /\ lat_rel e (lat s1) (lat s0) /\ chk_rel e (chk s1) (chk s0).
+
+  (* inside a DecodeStream chain *)
+  Definition wpre (e : N) (s1 s0 : st) : Prop :=
+    chk s0 = Some None /\ (chk s1 = Some None \/ chk s1 = Some (Some e)) /\
+    recorded s1 = recorded s0 /\ lat_rel e (lat s1) (lat s0) /\
+    (lat s1 = Tripped e -> lat s0 = Armed -> chk s1 = Some (Some e)).
+
+  Lemma chk_sticky f p : wsafe p -> forall s e, chk s = Some (Some e) -> chk (snd (eval file f p s)) = Some (Some e).
+  Proof.
+    induction 1 as [v|c Hc|off|p k Hp IHp Hk IHk|l p Hp IHp|p Hp IHp|p Hp IHp]; intros s e Hs; cbn [eval]; try exact Hs.
+    - destruct (lat s); try exact Hs;
+        (destruct (fires f (S (reads s))); [|exact Hs];
+         unfold read_faulted; destruct f as [ft|]; [|cbn; rewrite Hs; reflexivity];
+         destruct (fkd ft); try (cbn; rewrite Hs; reflexivity);
+         destruct (buffered_ctx s); try (cbn; rewrite Hs; reflexivity);
+         destruct (forc ft (S (reads s))); cbn; rewrite ?Hs; reflexivity).
+    - specialize (IHp s e Hs). destruct (eval file f p s) as [[v|c] s']; cbn [snd] in *; [|exact IHp].
+      apply IHk. exact IHp.
+    - apply IHp; exact Hs.
+    - specialize (IHp (set_lat s Armed) e Hs). destruct (eval file f p (set_lat s Armed)) as [r s']. cbn in *. exact IHp.
+    - specialize (IHp s e Hs). destruct (eval file f p s) as [[v|c] s']; exact IHp.
+  Qed.
+
+  Lemma read_fail_chk s e :
+    chk s = Some None \/ chk s = Some (Some e) -> chk (read_fail s e) = Some (Some e).
+  Proof. intros [H|H]; cbn; rewrite H; reflexivity. Qed.
+
+  Lemma eval_ReadAt f off s :
+    eval file f (ReadAt off) s =
+    match lat s with
+    | Tripped e => (Err (IO e), s)
+    | _ => match fires f (S (reads s)) with
+           | Some e => read_faulted file f s e off (S (reads s))
+           | None => (Ok (file off), read_ok s)
+           end
+    end.
+  Proof. reflexivity. Qed.
+
+  Lemma read_faulted_cases ft s off n :
+    forc ft n <> ShortTaken ->
+    read_faulted file (Some ft) s (fid ft) off n = (Err (IO (fid ft)), read_fail s (fid ft)) \/
+    read_faulted file (Some ft) s (fid ft) off n = (Ok (file off), read_fail s (fid ft)) \/
+    read_faulted file (Some ft) s (fid ft) off n = (Ok (file off), read_dropped s).
+  Proof.
+    intro NS. unfold read_faulted.
+    destruct (fkd ft); [left; reflexivity| |];
+      (destruct (buffered_ctx s); [|left; reflexivity]; destruct (forc ft n); [left; reflexivity|right; left; reflexivity|right; right; reflexivity|congruence]).
+  Qed.
+
+  Lemma lat_read_fail s e : lat (read_fail s e) = match lat s with Armed => Tripped e | l => l end.
+  Proof. reflexivity. Qed.
+
+  Lemma wpre_ok e s1 s0 : wpre e s1 s0 -> wpre e (read_ok s1) (read_ok s0).
+  Proof. intro W. exact W. Qed.
+
+  Lemma wpre_dropped e s1 s0 : wpre e s1 s0 -> wpre e (read_dropped s1) (read_ok s0).
+  Proof. intro W. exact W. Qed.
+
+  Lemma wpre_fail e s1 s0 :
+    wpre e s1 s0 -> lat s1 = lat s0 -> (forall x, lat s1 <> Tripped x) ->
+    wpre e (read_fail s1 e) (read_ok s0).
+  Proof.
+    intros (C0 & C1 & R & L & J) El NT.
+    split; [exact C0|]. split; [right; apply read_fail_chk; exact C1|]. split; [exact R|].
+    split.
+    - rewrite lat_read_fail. cbn [lat read_ok]. rewrite <- El.
+      destruct (lat s1); [left; reflexivity|right; split; reflexivity|left; reflexivity].
+    - intros _ _. apply read_fail_chk; exact C1.
+  Qed.
+
+  Lemma sim_ok e s1 s0 : sim e s1 s0 -> sim e (read_ok s1) (read_ok s0).
+  Proof. intro S. exact S. Qed.
+
+  Lemma sim_dropped e s1 s0 : sim e s1 s0 -> sim e (read_dropped s1) (read_ok s0).
+  Proof. intro S. exact S. Qed.
+
+  Lemma sim_fail e s1 s0 :
+    sim e s1 s0 -> lat s1 = lat s0 -> sim e (read_fail s1 e) (read_ok s0).
+  Proof.
+    intros (R & L & C) El. split; [exact R|]. split.
+    - rewrite lat_read_fail. cbn [lat read_ok]. rewrite <- El.
+      destruct (lat s1); [left; reflexivity|right; split; reflexivity|left; reflexivity].
+    - cbn [chk read_fail read_ok]. destruct C as [C|[C1 C0]].
+      + rewrite C. destruct (chk s0) as [[x|]|]; [left; reflexivity|right; split; reflexivity|left; reflexivity].
+      + rewrite C1. right; split; [reflexivity|exact C0].
+  Qed.
+
+  Lemma readat_weak f off s1 s0 :
+    (forall n, forc f n <> ShortTaken) -> wpre (fid f) s1 s0 ->
+    (fst (eval file (Some f) (ReadAt off) s1) = fst (eval file None (ReadAt off) s0) /\
+     wpre (fid f) (snd (eval file (Some f) (ReadAt off) s1)) (snd (eval file None (ReadAt off) s0))) \/
+    ((exists c, fst (eval file (Some f) (ReadAt off) s1) = Err c) /\
+     chk (snd (eval file (Some f) (ReadAt off) s1)) = Some (Some (fid f))).
+  Proof.
+    intros NS W. rewrite !eval_ReadAt.
+    replace (fires None (S (reads s0))) with (@None N) by reflexivity.
+    pose proof W as (C0 & C1 & R & L & J).
+    destruct L as [L|[L1 L0]].
+    - rewrite <- L.
+      assert (NTcase : (forall x, lat s1 <> Tripped x) ->
+                (fst match fires (Some f) (S (reads s1)) with
+                     | Some e => read_faulted file (Some f) s1 e off (S (reads s1))
+                     | None => (Ok (file off), read_ok s1) end = fst (Ok (file off), read_ok s0) /\
+                 wpre (fid f) (snd match fires (Some f) (S (reads s1)) with
+                     | Some e => read_faulted file (Some f) s1 e off (S (reads s1))
+                     | None => (Ok (file off), read_ok s1) end) (snd (Ok (file off), read_ok s0))) \/
+                ((exists c, fst match fires (Some f) (S (reads s1)) with
+                     | Some e => read_faulted file (Some f) s1 e off (S (reads s1))
+                     | None => (Ok (file off), read_ok s1) end = Err c) /\
+                 chk (snd match fires (Some f) (S (reads s1)) with
+                     | Some e => read_faulted file (Some f) s1 e off (S (reads s1))
+                     | None => (Ok (file off), read_ok s1) end) = Some (Some (fid f)))).
+      { intro NT. destruct (fires (Some f) (S (reads s1))) as [e|] eqn:E.
+        - apply fires_id in E. subst e.
+          destruct (read_faulted_cases f s1 off (S (reads s1)) (NS _)) as [H|[H|H]]; rewrite H; cbn [fst snd].
+          + right. split; [eauto|apply read_fail_chk; exact C1].
+          + left. split; [reflexivity|apply wpre_fail; assumption].
+          + left. split; [reflexivity|apply wpre_dropped; exact W].
+        - left. split; [reflexivity|apply wpre_ok; exact W]. }
+      destruct (lat s1) as [| |x] eqn:El.
+      + apply NTcase. intros x; discriminate.
+      + apply NTcase. intros x; discriminate.
+      + left. split; [reflexivity|exact W].
+    - rewrite L1, L0. right. cbn [fst snd]. split; [eauto|apply J; assumption].
+  Qed.
+
+  Lemma readat_strong f off s1 s0 :
+    (forall n, forc f n <> ShortTaken) -> sim (fid f) s1 s0 ->
+    (fst (eval file (Some f) (ReadAt off) s1) = fst (eval file None (ReadAt off) s0) /\
+     sim (fid f) (snd (eval file (Some f) (ReadAt off) s1)) (snd (eval file None (ReadAt off) s0))) \/
+    fst (eval file (Some f) (ReadAt off) s1) = Err (IO (fid f)).
+  Proof.
+    intros NS Hsim. rewrite !eval_ReadAt.
+    replace (fires None (S (reads s0))) with (@None N) by reflexivity.
+    pose proof Hsim as (R & L & C).
+    destruct L as [L|[L1 L0]].
+    - rewrite <- L.
+      assert (NTcase :
+                (fst match fires (Some f) (S (reads s1)) with
+                     | Some e => read_faulted file (Some f) s1 e off (S (reads s1))
+                     | None => (Ok (file off), read_ok s1) end = fst (Ok (file off), read_ok s0) /\
+                 sim (fid f) (snd match fires (Some f) (S (reads s1)) with
+                     | Some e => read_faulted file (Some f) s1 e off (S (reads s1))
+                     | None => (Ok (file off), read_ok s1) end) (snd (Ok (file off), read_ok s0))) \/
+                fst match fires (Some f) (S (reads s1)) with
+                     | Some e => read_faulted file (Some f) s1 e off (S (reads s1))
+                     | None => (Ok (file off), read_ok s1) end = Err (IO (fid f))).
+      { destruct (fires (Some f) (S (reads s1))) as [e|] eqn:E.
+        - apply fires_id in E. subst e.
+          destruct (read_faulted_cases f s1 off (S (reads s1)) (NS _)) as [H|[H|H]]; rewrite H; cbn [fst snd].
+          + right. reflexivity.
+          + left. split; [reflexivity|apply sim_fail; assumption].
+          + left. split; [reflexivity|apply sim_dropped; exact Hsim].
+        - left. split; [reflexivity|apply sim_ok; exact Hsim]. }
+      destruct (lat s1) as [| |x] eqn:El.
+      + exact NTcase.
+      + exact NTcase.
+      + left. split; [reflexivity|exact Hsim].
+    - rewrite L1. right. reflexivity.
+  Qed.
+
+  Lemma sim_weak f p : (forall n, forc f n <> ShortTaken) -> wsafe p -> forall s1 s0,
+      wpre (fid f) s1 s0 ->
+      (fst (eval file (Some f) p s1) = fst (eval file None p s0) /\
+       wpre (fid f) (snd (eval file (Some f) p s1)) (snd (eval file None p s0))) \/
+      ((exists c, fst (eval file (Some f) p s1) = Err c) /\
+       chk (snd (eval file (Some f) p s1)) = Some (Some (fid f))).
+  Proof.
+    intros NS.
+    induction 1 as [v|c Hc|off|p k Hp IHp Hk IHk|l p Hp IHp|p Hp IHp|p Hp IHp];
+      intros s1 s0 W; cbn [eval].
+    - left. split; [reflexivity|exact W].
+    - left. split; [reflexivity|exact W].
+    - apply readat_weak; assumption.
+    - specialize (IHp s1 s0 W).
+      destruct (eval file (Some f) p s1) as [[v1|c1] s1'] eqn:E1;
+        destruct (eval file None p s0) as [[v0|c0] s0'] eqn:E0; cbn [fst snd] in *.
+      + destruct IHp as [[Hv W']|[[c Hc] _]]; [|discriminate].
+        inversion Hv; subst v0. apply IHk. exact W'.
+      + destruct IHp as [[Hv _]|[[c Hc] _]]; discriminate.
+      + destruct IHp as [[Hv _]|[_ Hk']]; [discriminate|]. right. split; eauto.
+      + destruct IHp as [[Hv W']|[_ Hk']].
+        * left. split; assumption.
+        * right. split; eauto.
+    - apply IHp. exact W.
+    - destruct W as (C0 & C1 & R & L & J).
+      assert (W2 : wpre (fid f) (set_lat s1 Armed) (set_lat s0 Armed)).
+      { repeat split; try assumption. left; reflexivity. cbn; intro; discriminate. }
+      specialize (IHp _ _ W2).
+      pose proof (chk_sticky (Some f) p Hp (set_lat s1 Armed) (fid f)) as CS.
+      destruct (eval file (Some f) p (set_lat s1 Armed)) as [r1 s1'];
+        destruct (eval file None p (set_lat s0 Armed)) as [r0 s0']; cbn [fst snd] in *.
+      destruct IHp as [[Hr (C0' & C1' & R' & L' & J')]|[He Hk']].
+      + left. split; [exact Hr|]. cbn. repeat split; try assumption.
+        intros T A. apply CS. cbn. apply J; assumption.
+      + right. split; [exact He|exact Hk'].
+    - specialize (IHp s1 s0 W).
+      destruct (eval file (Some f) p s1) as [[v1|c1] s1'] eqn:E1;
+        destruct (eval file None p s0) as [[v0|c0] s0'] eqn:E0; cbn [fst snd] in *.
+      + exact IHp.
+      + destruct IHp as [[Hv _]|[[c Hc] _]]; discriminate.
+      + destruct IHp as [[Hv _]|[_ Hk']]; [discriminate|]. right. split; eauto.
+      + destruct IHp as [[Hv W']|[_ Hk']].
+        * left. inversion Hv; subst. split; [reflexivity|exact W'].
+        * right. split; eauto.
+  Qed.
+
+  Lemma sim_strong f p : (forall n, forc f n <> ShortTaken) -> safe false p -> forall s1 s0,
+      sim (fid f) s1 s0 ->
+      (fst (eval file (Some f) p s1) = fst (eval file None p s0) /\
+       sim (fid f) (snd (eval file (Some f) p s1)) (snd (eval file None p s0))) \/
+      fst (eval file (Some f) p s1) = Err (IO (fid f)).
+  Proof.
+    intros NS.
+    induction 1 as [v|e He|off|p k Hp IHp Hk IHk|l p Hp IHp|p d Hp IHp|m ph p d Hp IHp|v|p Hp IHp|p Hp|p h Hp IHp Hh IHh|p h Hc Hp IHp Hh IHh];
+      intros s1 s0 S; cbn [eval].
+    - left. split; [reflexivity|exact S].
+    - left. split; [reflexivity|exact S].
+    - apply readat_strong; assumption.
+    - specialize (IHp s1 s0 S).
+      destruct (eval file (Some f) p s1) as [[v1|c1] s1'] eqn:E1;
+        destruct (eval file None p s0) as [[v0|c0] s0'] eqn:E0; cbn [fst snd] in *.
+      + destruct IHp as [[Hv S']|Hc]; [|discriminate]. inversion Hv; subst v0. apply IHk. exact S'.
+      + destruct IHp as [[Hv _]|Hc]; discriminate.
+      + destruct IHp as [[Hv _]|Hc]; [discriminate|]. right. exact Hc.
+      + exact IHp.
+    - apply IHp. exact S.
+    - specialize (IHp s1 s0 S).
+      destruct (eval file (Some f) p s1) as [[v1|c1] s1'] eqn:E1;
+        destruct (eval file None p s0) as [[v0|c0] s0'] eqn:E0; cbn [fst snd] in *.
+      + exact IHp.
+      + destruct IHp as [[Hv _]|Hc]; discriminate.
+      + destruct IHp as [[Hv _]|Hc]; [discriminate|]. inversion Hc; subst c1. right; reflexivity.
+      + destruct IHp as [[Hv S']|Hc].
+        * inversion Hv; subst c0. left. destruct c1; cbn [fst snd]; split; try reflexivity; exact S'.
+        * inversion Hc; subst c1. right; reflexivity.
+    - specialize (IHp s1 s0 S).
+      destruct (eval file (Some f) p s1) as [[v1|c1] s1'] eqn:E1;
+        destruct (eval file None p s0) as [[v0|c0] s0'] eqn:E0; cbn [fst snd] in *.
+      + exact IHp.
+      + destruct IHp as [[Hv _]|Hc]; discriminate.
+      + destruct IHp as [[Hv _]|Hc]; [discriminate|]. inversion Hc; subst c1.
+        rewrite policy_nonmalformed by reflexivity. right; reflexivity.
+      + destruct IHp as [[Hv S']|Hc].
+        * inversion Hv; subst c0. left. destruct (policy m ph c1); cbn [fst snd]; split; try reflexivity; try exact S'.
+          destruct S' as (R' & L' & C'). split; [cbn; congruence|]. split; assumption.
+        * inversion Hc; subst c1. rewrite policy_nonmalformed by reflexivity. right; reflexivity.
+    - left. split; [reflexivity|]. destruct S as (R & L & C). split; [cbn; congruence|]. split; assumption.
+    - destruct S as (R & L & C).
+      assert (S2 : sim (fid f) (set_lat s1 Armed) (set_lat s0 Armed)).
+      { split; [exact R|]. split; [left; reflexivity|exact C]. }
+      specialize (IHp _ _ S2).
+      destruct (eval file (Some f) p (set_lat s1 Armed)) as [r1 s1'];
+        destruct (eval file None p (set_lat s0 Armed)) as [r0 s0']; cbn [fst snd] in *.
+      destruct IHp as [[Hr (R' & L' & C')]|Hc]; [|right; exact Hc].
+      left. split; [exact Hr|]. split; [exact R'|]. split; [exact L|exact C'].
+    - destruct S as (R & L & C).
+      assert (W : wpre (fid f) (set_lat (set_chk s1 (Some None)) NoLatch) (set_lat (set_chk s0 (Some None)) NoLatch)).
+      { split; [reflexivity|]. split; [left; reflexivity|]. split; [exact R|]. split; [left; reflexivity|].
+        cbn. intro; discriminate. }
+      pose proof (sim_weak f p NS Hp _ _ W) as SW.
+      destruct (eval file (Some f) p (set_lat (set_chk s1 (Some None)) NoLatch)) as [r1 s1'];
+        destruct (eval file None p (set_lat (set_chk s0 (Some None)) NoLatch)) as [r0 s0']; cbn [fst snd] in *.
+      destruct SW as [[Hr (C0' & C1' & R' & L' & J')]|[[c Hc] Hk']].
+      + subst r0. rewrite C0'.
+        assert (SR : sim (fid f) (set_lat (set_chk s1' (chk s1)) (lat s1)) (set_lat (set_chk s0' (chk s0)) (lat s0))).
+        { split; [exact R'|]. split; [exact L|exact C]. }
+        destruct r1 as [v|c].
+        * left. split; [reflexivity|exact SR].
+        * destruct C1' as [H|H]; rewrite H.
+          -- left. split; [reflexivity|exact SR].
+          -- right. reflexivity.
+      + subst r1. rewrite Hk'. right. reflexivity.
+    - specialize (IHp s1 s0 S).
+      destruct (eval file (Some f) p s1) as [[v1|c1] s1'] eqn:E1;
+        destruct (eval file None p s0) as [[v0|c0] s0'] eqn:E0; cbn [fst snd] in *.
+      + exact IHp.
+      + destruct IHp as [[Hv _]|Hc]; discriminate.
+      + destruct IHp as [[Hv _]|Hc]; [discriminate|]. inversion Hc; subst c1. right; reflexivity.
+      + destruct IHp as [[Hv S']|Hc].
+        * inversion Hv; subst c0. destruct c1; try (left; split; [reflexivity|exact S']); apply IHh; exact S'.
+        * inversion Hc; subst c1. right; reflexivity.
+    - discriminate.
+  Qed.
+
+  Lemma sim_refl e s : sim e s s.
+  Proof. split; [reflexivity|]. split; left; reflexivity. Qed.
+
+  (* all three kinds of failing call, both fault modes, every decision except the
+     one that takes short data for the end of the input *)
   Lemma fault_surfaces_lemma : forall p f s,
-      safe false p -> fired s = false -> swallowed s = false ->
-      eval file (Some f) p s = eval file None p s \/
+      safe false p -> (forall n, forc f n <> ShortTaken) ->
+      (fst (eval file (Some f) p s) = fst (eval file None p s) /\
+       recorded (snd (eval file (Some f) p s)) = recorded (snd (eval file None p s))) \/
       fst (eval file (Some f) p s) = Err (IO (fid f)).
   Proof.
-    intros p f s Hs Hf Hw.
-    destruct (fault_surfaces_unless_swallowed_lemma false p f s Hs Hf) as [H|[H|H]]; [tauto|tauto|].
-    rewrite safe_swallowed in H by assumption. congruence.
+    intros p f s Hs NS.
+    destruct (sim_strong f p NS Hs s s (sim_refl _ _)) as [[H (R & _)]|H]; [left; split; assumption|right; exact H].
   Qed.
 
   (* every fault index that the fault-free run reaches yields the injected error *)
   Lemma fault_in_range_surfaces_lemma : forall p f,
-      safe false p ->
+      fkd f = FKErr -> safe false p ->
       (1 <= fk f <= reads (snd (eval file None p st0)))%nat ->
       fst (eval file (Some f) p st0) = Err (IO (fid f)).
   Proof.
-    intros p f Hs [Hk1 Hk2].
+    intros p f Hkd Hs [Hk1 Hk2].
     destruct (fired (snd (eval file (Some f) p st0))) eqn:E.
-    - destruct (strong_surfacing f false p Hs st0 eq_refl E) as [H|H]; [exact H|].
+    - destruct (strong_surfacing f false p Hkd Hs st0 eq_refl E) as [H|H]; [exact H|].
       rewrite safe_swallowed in H by assumption. discriminate.
     - exfalso.
       pose proof (unfired_reads f p st0) as U. cbn [reads st0] in U.
@@ -486,6 +805,19 @@ Lemma latch_rescues :
   outcome_at (Latch (Bind (CatchAll (ReadAt 0) (fun _ => Ret 0%N)) (fun a => Bind (ReadAt 1) (fun b => Ret (a + b)%N)))) OnlyK 1 = OIO.
 Proof. vm_compute. reflexivity. Qed.
 
+(* data together with the error: a short view taken for the end of the input
+   (scanner.PeekN before the fix) returns different data; every other decision
+   gives the fault-free value or the injected error *)
+Definition partial_fault (d : pdec) : fault := mkFault 1 OnlyK inj_id FKPartial (fun _ => d).
+
+Lemma short_taken_breaks :
+  fst (eval default_file (Some (partial_fault ShortTaken)) (Latch (ReadAt 0)) st0) = Ok 0%N /\
+  fst (eval default_file None (Latch (ReadAt 0)) st0) = Ok 1%N /\
+  fst (eval default_file (Some (partial_fault Enough)) (Latch (Bind (ReadAt 0) (fun a => Bind (ReadAt 1) (fun b => Ret (a + b)%N)))) st0) = Err (IO inj_id) /\
+  fst (eval default_file (Some (partial_fault Enough)) (Latch (ReadAt 0)) st0) = Ok 1%N /\
+  fst (eval default_file (Some (partial_fault Dropped)) (Latch (Bind (ReadAt 0) (fun a => Bind (ReadAt 1) (fun b => Ret (a + b)%N)))) st0) = Ok 3%N.
+Proof. vm_compute. auto. Qed.
+
 Lemma nolatch_loses :
   outcome_at (Bind (CatchAll (ReadAt 0) (fun _ => Ret 0%N)) (fun a => Bind (ReadAt 1) (fun b => Ret (a + b)%N))) OnlyK 1 = ODifferent.
 Proof. vm_compute. reflexivity. Qed.
@@ -514,11 +846,12 @@ Lemma gopdf_fault_in_range_lemma :
   forall file m t q ks bad f p,
     p = open_prog m t \/ p = seq_prog m q \/ p = get_prog ks bad \/
     p = drain_prog ks bad \/ p = decode_prog ks bad ->
+    fkd f = FKErr ->
     (1 <= fk f <= reads (snd (eval file None p st0)))%nat ->
     fst (eval file (Some f) p st0) = Err (IO (fid f)).
 Proof.
-  intros file m t q ks bad f p Hp Hk.
-  apply fault_in_range_surfaces_lemma; [|exact Hk].
+  intros file m t q ks bad f p Hp Hkd Hk.
+  apply fault_in_range_surfaces_lemma; [exact Hkd| |exact Hk].
   destruct Hp as [H|[H|[H|[H|H]]]]; subst p.
   - apply open_prog_safe.
   - apply seq_prog_safe.
